@@ -80,7 +80,7 @@ def summarise(F, role):
             I_.scatter = []
             try:
                 I_.bind(pat, Tup([var, elem.items[1]]), env)
-                I_.ev_raw(body, env)
+                I_.run_body(body, env)
                 for rec in I_.scatter:
                     v = rec["value"]
                     if not isinstance(v, Sc):
